@@ -207,11 +207,24 @@ def run(chk, tier):
         raise ToolError("harness interpreter disagrees with spec/Programs.tla: %s" % json.dumps(out["mismatches"][:2]))
     chk.sample({"program": allp[0]["prog"], "f17_inputs": allp[0]["inputs"][:2], "f17_expected": allp[0]["expect"][:2]})
     # ---- B2: real circuits
+    p1_full = list(p1)
     if not thorough:
         rnd.shuffle(p1)
         p1 = sorted(p1[:350], key=lambda p: json.dumps(p["prog"], sort_keys=True))
         psim = psim[:100]
-    rows = make_scenarios(p1, cfgs, classes, rnd, "a")
+    # coverage block: every opcode under every row shape (standard FRI parameters), independent of the seed
+    p1_all = sorted(p1_full, key=lambda p: json.dumps(p["prog"], sort_keys=True))
+    first_by_op = {}
+    for p in p1_all:
+        first_by_op.setdefault(p["prog"]["instrs"][0]["op"], p)
+    cover = []
+    stdc = {"zk": False, "strat": "const", "arities": [4, 5], "rate": 3, "cap": 4, "nch": 2, "width": "std", "q": 28,
+            "pow": 16, "keccak": False}
+    for op in sorted(first_by_op):
+        for w in ("std", "wide", "narrow", "r60", "r37"):
+            cover.append({"id": "v-%s-%s" % (op, w), "prog": first_by_op[op]["prog"], "cfg": dict(stdc, width=w),
+                          "inputs": ["small:16", "rand", "small:4"]})
+    rows = make_scenarios(p1, cfgs, classes, rnd, "a") + cover
     rows += make_scenarios(psim, cfgs, classes, rnd, "s")
     rows += make_scenarios(p2, cfgs, classes, rnd, "b")
     if thorough:
